@@ -3,6 +3,8 @@
 package checks
 
 import (
+	"github.com/cosmos/cosmos-sdk/x/params"
+	paramproposal "github.com/cosmos/cosmos-sdk/x/params/types/proposal"
 	"fmt"
 	"math/big"
 	"testing"
@@ -135,8 +137,18 @@ func c13History(r *report.R, id string) {
 			_ = dcls
 			n.BeginBlock(vn.BlockOpts{Dt: dt})
 		}
+		storedParams := func(ctx sdk.Context) coinomicstypes.Params {
+			var p coinomicstypes.Params
+			n.App.GetSubspace(coinomicstypes.ModuleName).GetParamSet(ctx, &p)
+			return p
+		}
 		// state-changing inputs inside the block
 		ev := ""
+		// the route a governance proposal takes: the x/params proposal handler writes the subspace itself
+		govParam := func(key, val string) error {
+			h := params.NewParamChangeProposalHandler(n.App.ParamsKeeper)
+			return h(n.Ctx(), paramproposal.NewParameterChangeProposal("t", "d", []paramproposal.ParamChange{paramproposal.NewParamChange(coinomicstypes.ModuleName, key, val)}))
+		}
 		switch rng.Intn(7) {
 		case 0: // bonded changes: delegate
 			a := n.Accounts[rng.Intn(len(n.Accounts))]
@@ -145,16 +157,30 @@ func c13History(r *report.R, id string) {
 			res := n.Deliver(n.CosmosTx(vn.CosmosArgs{Msgs: []sdk.Msg{msg}, Gas: 500000, Fee: sdk.NewCoins(sdk.NewCoin(vn.Denom, sdkmath.NewInt(1)))}, a))
 			ev = fmt.Sprintf("delegate ok=%v", res.Code == 0)
 		case 1: // coefficient change
-			p := ck.GetParams(n.Ctx())
+			p := storedParams(n.Ctx())
 			p.RewardCoefficient = coefChoices[rng.Intn(len(coefChoices))]
-			ck.SetParams(n.Ctx(), p)
-			ev = "coef=" + p.RewardCoefficient.String()
+			if rng.Intn(2) == 0 {
+				ck.SetParams(n.Ctx(), p)
+				ev = "coef=" + p.RewardCoefficient.String()
+			} else if err := govParam(string(coinomicstypes.ParamStoreKeyRewardCoefficient), fmt.Sprintf("%q", p.RewardCoefficient.String())); err == nil {
+				ev = "coef(gov)=" + p.RewardCoefficient.String()
+				r.Count("param_changes_through_the_governance_handler", 1)
+			} else {
+				r.Note("param change proposal: %v", err)
+			}
 		case 2: // toggle
 			if rng.Intn(2) == 0 {
-				p := ck.GetParams(n.Ctx())
+				p := storedParams(n.Ctx())
 				p.EnableCoinomics = !p.EnableCoinomics
-				ck.SetParams(n.Ctx(), p)
-				ev = fmt.Sprintf("enable=%v", p.EnableCoinomics)
+				if rng.Intn(2) == 0 {
+					ck.SetParams(n.Ctx(), p)
+					ev = fmt.Sprintf("enable=%v", p.EnableCoinomics)
+				} else if err := govParam(string(coinomicstypes.ParamStoreKeyEnableCoinomics), fmt.Sprintf("%v", p.EnableCoinomics)); err == nil {
+					ev = fmt.Sprintf("enable(gov)=%v", p.EnableCoinomics)
+					r.Count("param_changes_through_the_governance_handler", 1)
+				} else {
+					r.Note("param change proposal: %v", err)
+				}
 			}
 		case 3: // raise the cap again (re-enable path)
 			if capMode != 0 && rng.Intn(3) == 0 {
@@ -164,7 +190,7 @@ func c13History(r *report.R, id string) {
 		}
 		// observation window: around EndBlock
 		ctx := n.Ctx()
-		p := ck.GetParams(ctx)
+		p := storedParams(ctx) // what the parameter store holds, not what the keeper's accessor says
 		enabled := p.EnableCoinomics
 		prevTS := ck.GetPrevBlockTS(ctx)
 		supplyBefore := n.Supply(vn.Denom)
@@ -175,7 +201,7 @@ func c13History(r *report.R, id string) {
 		bonded := n.App.StakingKeeper.TotalBondedTokens(ctx)
 		minted := n.Supply(vn.Denom).Sub(supplyBefore)
 		toColl := n.Balance(feeColl, vn.Denom).Sub(collBefore)
-		enabledAfter := ck.GetParams(ctx).EnableCoinomics
+		enabledAfter := storedParams(ctx).EnableCoinomics
 		prevTSAfter := ck.GetPrevBlockTS(ctx)
 		nowMs := n.Time.UnixMilli()
 		r.Eval(1)
